@@ -22,7 +22,7 @@ import (
 // Anything else is reported as a failing site.
 
 var decoderDirs = []string{"common", "core/types/payload", "core/types/outputpayload", "core/types/common", "core/types",
-	"core/transaction", "core/contract/program", "auxpow", "p2p", "p2p/msg", "dpos/p2p/msg", "elanet/bloom"}
+	"core/transaction", "core/contract/program", "auxpow", "p2p", "p2p/msg", "dpos/p2p/msg", "elanet/bloom", "crypto"}
 
 // function (receiver.name or name) -> number of non-constant makes allowed
 var allowedMakes = map[string]int{
@@ -46,8 +46,15 @@ func isDecoderFunc(name string) bool {
 		name == "GetTransactionByBytes"
 }
 
+// decoderTable: every Deserialize* method of the decoder packages ("pkg|Type.Method")
+// and the non-constant make sites per function ("pkg|Func" -> count), as written
+// to coq/gen/C02_decoders.v for the agreement theorems of proof/C02_Cover.v.
+var decoderTable []string
+var siteTable = map[string]int{}
+
 func scanRepo(repo string) (unexpected []staticSite, seen map[string]int, files int) {
 	seen = map[string]int{}
+	decoderTable, siteTable = nil, map[string]int{}
 	fset := token.NewFileSet()
 	for _, d := range decoderDirs {
 		ents, err := os.ReadDir(filepath.Join(repo, d))
@@ -73,6 +80,7 @@ func scanRepo(repo string) (unexpected []staticSite, seen map[string]int, files 
 					continue
 				}
 				fname := fd.Name.Name
+				qual := d + "|" + fname
 				if fd.Recv != nil && len(fd.Recv.List) > 0 {
 					t := fd.Recv.List[0].Type
 					if s, ok := t.(*ast.StarExpr); ok {
@@ -80,6 +88,10 @@ func scanRepo(repo string) (unexpected []staticSite, seen map[string]int, files 
 					}
 					if id, ok := t.(*ast.Ident); ok {
 						fname = id.Name + "." + fname
+						qual = d + "|" + fname
+						if strings.HasPrefix(fd.Name.Name, "Deserialize") {
+							decoderTable = append(decoderTable, qual)
+						}
 					}
 				}
 				ast.Inspect(fd.Body, func(nd ast.Node) bool {
@@ -93,6 +105,7 @@ func scanRepo(repo string) (unexpected []staticSite, seen map[string]int, files 
 								}
 							}
 							if nonconst {
+								siteTable[qual]++
 								seen[fname]++
 								if seen[fname] > allowedMakes[fname] {
 									var sb strings.Builder
@@ -133,3 +146,61 @@ func relPos(repo, pos string) string {
 }
 
 var _ = fmt.Sprint
+
+// writeGen regenerates coq/gen/C02_decoders.v from the scan.
+func writeGen(verifRoot string) error {
+	sort.Strings(decoderTable)
+	var sb strings.Builder
+	sb.WriteString("(* generated by harness/cmd/c02/static.go from the Go source; do not edit *)\n")
+	sb.WriteString("From Coq Require Import NArith List String.\nImport ListNotations.\nLocal Open Scope string_scope.\n")
+	sb.WriteString("Definition decoders : list string := [\n")
+	for i, d := range decoderTable {
+		if i > 0 {
+			sb.WriteString(";\n")
+		}
+		sb.WriteString("  \"" + d + "\"")
+	}
+	sb.WriteString("\n].\nDefinition make_sites : list (string * N) := [\n")
+	var fns []string
+	for f := range siteTable {
+		fns = append(fns, f)
+	}
+	sort.Strings(fns)
+	for i, f := range fns {
+		if i > 0 {
+			sb.WriteString(";\n")
+		}
+		fmt.Fprintf(&sb, "  (\"%s\", %d%%N)", f, siteTable[f])
+	}
+	sb.WriteString("\n].\n")
+	dir := filepath.Join(verifRoot, "coq", "gen")
+	if err := os.MkdirAll(dir, 0o755); err != nil {
+		return err
+	}
+	path := filepath.Join(dir, "C02_decoders.v")
+	if old, err := os.ReadFile(path); err == nil && string(old) == sb.String() {
+		return nil // unchanged: keep the timestamp so nothing is rebuilt
+	}
+	return os.WriteFile(path, []byte(sb.String()), 0o644)
+}
+
+// coverRows parses the rows of coq/model/C02_Cover.v [cover].
+func coverRows(verifRoot string) map[string]string {
+	m := map[string]string{}
+	b, err := os.ReadFile(filepath.Join(verifRoot, "coq", "model", "C02_Cover.v"))
+	if err != nil {
+		return m
+	}
+	for _, line := range strings.Split(string(b), "\n") {
+		line = strings.TrimSpace(line)
+		if !strings.HasPrefix(line, "(\"") {
+			continue
+		}
+		q := strings.Index(line[2:], "\"")
+		if q < 0 {
+			continue
+		}
+		m[line[2:2+q]] = strings.Trim(line[2+q+2:], " ,);")
+	}
+	return m
+}
